@@ -136,6 +136,11 @@ func (c *collection) deleteIndexedDocWithID(
 	if err != nil {
 		return err
 	}
+	if doc == nil {
+		// The document does not exist or has been deleted already, there is nothing to remove
+		// from the indexes. The caller reports the missing document.
+		return nil
+	}
 	return c.deleteIndexedDoc(ctx, doc)
 }
 
